@@ -40,7 +40,7 @@ def run(ctx):
                             if r is None: e['obs'] = dict(none=True, digest=[])
                             else:
                                 e['obs'] = dict(none=False, digest=B(r) if isinstance(r, (bytes, bytearray)) else [-1])
-                                digests.setdefault((buckets, wnd, chk), []).append((bytes(r), obj, tlsh_fields(obj)))
+                                digests.setdefault((buckets, wnd, chk), []).append((bytes(r), obj, tlsh_fields(obj), data, force))
                         except Exception as ex: e['raised'] = type(ex).__name__
                         ev.append(e); ctx.mark((buckets, wnd, chk, n, cls, force))
                     if not big and n < 256: pass
@@ -94,6 +94,15 @@ def run(ctx):
             r = T.TLSH(128, 5, 1)(data, False); e['obs'] = dict(none=r is None, digest=[] if r is None else B(r))
         except Exception as ex: e['raised'] = type(ex).__name__
         ev.append(e); ctx.mark(('long input', len(data)))
+    # the length byte for EVERY data length up to 6000 and samples beyond (the length attribute is assigned, nothing is hashed)
+    lv = []
+    for l in list(range(1, 6001)) + [rnd.randrange(6001, 1 << 24) for _ in range(300)] + [(1 << k) + d for k in range(13, 24) for d in (-1, 0, 1)]:
+        e = dict(op='tlsh_lvalue', len=l, raised='', obs=-1)
+        try:
+            o = T.TLSH(128); o.data_len = l; v = o.l_capturing(); e['obs'] = int(v) if isinstance(v, int) or hasattr(v, '__int__') else -1
+        except Exception as ex: e['raised'] = type(ex).__name__
+        lv.append(e)
+    ctx.mark(('lvalue', len(lv)))
     # the module-level singleton
     for n in (40, 300):
         data = text(n); e = dict(op='tlsh', cfg=dict(buckets=128, wnd=5, chk=1), data=B(data), force=False, raised='', obs=dict(none=True, digest=[]))
@@ -104,7 +113,7 @@ def run(ctx):
     # reload and distances
     for (buckets, wnd, chk), lst in digests.items():
         cfg = dict(buckets=buckets, wnd=wnd, chk=chk)
-        for (h, obj, fields) in lst[: (None if big else 2)]:
+        for (h, obj, fields, _d, _f) in lst[: (None if big else 2)]:
             e = dict(op='tlsh_reload', cfg=cfg, h=B(h), fields=fields, raised='', obs={})
             try:
                 o2 = T.TLSH(buckets, wnd, chk).from_hash(h); o2.digest()
@@ -113,10 +122,12 @@ def run(ctx):
             ev.append(e)
         pairs = [(lst[i], lst[j]) for i in range(len(lst)) for j in range(len(lst))][: (40 if big else 4)]
         if wnd != 5 and not big: pairs = pairs[:2]
-        for (h1, o1, _), (h2, o2, _) in pairs:
+        for (h1, o1, _, dat1, fo1), (h2, o2, _, dat2, fo2) in pairs:
             e = dict(op='tlsh_dist', cfg=cfg, d1=B(h1), d2=B(h2), raised='', obs=[])
             try:
-                vals = [T.distance(o1, o2), T.distance(h1, h2), T.distance(o1, h2), T.distance(h1, o2), T.distance(o2, o1), T.distance(h2, h1), o1.distance_to(o2)]
+                f1 = T.TLSH(buckets, wnd, chk).final(dat1, fo1); f2 = T.TLSH(buckets, wnd, chk).final(dat2, fo2)       # finalised objects on which digest() was never called
+                vals = [T.distance(o1, o2), T.distance(h1, h2), T.distance(o1, h2), T.distance(h1, o2), T.distance(o2, o1), T.distance(h2, h1), o1.distance_to(o2),
+                        T.distance(f1, f2), T.distance(f1, h2), T.distance(T.TLSH(buckets, wnd, chk).final(dat2, fo2), T.TLSH(buckets, wnd, chk).final(dat1, fo1))]
                 e['obs'] = [v if isinstance(v, int) and not isinstance(v, bool) else -1 for v in vals]
             except Exception as ex: e['raised'] = type(ex).__name__
             ev.append(e); ctx.mark(('dist', buckets, wnd, chk, h1[:4].hex(), h2[:4].hex()))
@@ -168,8 +179,8 @@ def run(ctx):
                 except Exception as ex: e['raised'] = type(ex).__name__
                 ev.append(e)
     ctx.exhaustive_subspaces.append('all 3 x 5 x 2 TLSH configurations; data lengths {0,4,49,50,51,255,256,257,700,...}; Nilsimsa: every byte cut of the seeded strings')
-    ctx.evaluations = len(ev); ctx.sample({a: (v if a != 'data' else v[:20]) for a, v in ev[3].items()}); ctx.sample({a: v for a, v in ev[-1].items()})
-    traces = [dict(ev=ev[i:i + 6]) for i in range(0, len(ev), 6)]
+    ctx.evaluations = len(ev) + len(lv); ctx.sample({a: (v if a != 'data' else v[:20]) for a, v in ev[3].items()}); ctx.sample({a: v for a, v in ev[-1].items()})
+    traces = [dict(ev=ev[i:i + 6]) for i in range(0, len(ev), 6)] + [dict(ev=lv[i:i + 300]) for i in range(0, len(lv), 300)]
     bad = ctx.validate('trace/Trace_Simil.tla', traces, lambda t: len(t['ev']), what='Trace_Simil')
     for tid, recs in bad.items():
         for rec in recs:
